@@ -255,7 +255,8 @@ Proof.
   - apply andb_prop in FR. destruct FR as [FR FE]. apply andb_prop in FR. destruct FR as [NS BF].
     eapply exec_opdef_g; eauto.
   - discriminate.
-  - discriminate.
+  - apply andb_prop in FR. destruct FR as [FR FE]. apply andb_prop in FR. destruct FR as [NS BF].
+    eapply exec_andop_g; eauto.
 Qed.
 
 (* ------------------------------------------------------------------ a loop body *)
